@@ -406,6 +406,9 @@ def audit_db(r: Recorder, app) -> dict:
             ok = ok and abs(jd_ind - float(jd)) < 1e-8
             if nxt is not None:
                 ok = ok and float(nxt[0]) > float(jd) and _dt.fromisoformat(nxt[1]) > t
+        # "strictly increasing" also in ROW order (what a reader without ORDER BY sees)
+        by_id = [float(r[0]) for r in q("SELECT julian_date FROM epochs ORDER BY id")]
+        ok = ok and all(b > a for a, b in zip(by_id, by_id[1:]))
         out["epochs_ok"] = bool(ok)
         dangling = 0
         for tbl, cols in (("truth_ephemerides", ["agent_id"]), ("estimate_ephemerides", ["agent_id"]),
